@@ -358,7 +358,7 @@ fn assignment_stmt(rng: &mut Rng, g: &mut Vec<Name>) -> Stmt {
         4 => bin(BinOp::Divide, num(*rng.pick(&[1.0, 0.0])), num(0.0)),
         5 => bin(BinOp::Divide, Expr::Un(UnOp::Minus, Box::new(num(1.0))), num(0.0)),
         6 => strlit(*rng.pick(&["hello", "Hello, World!", "", " padded ", "it's (fine)", "é 日本", "say 1", "1"])),
-        7 => strlit("two\nlines"),
+        7 => strlit(*rng.pick(&["two\nlines", "hello\n", "\n", "\nhello", "a\n\nb", "three\nshort\nlines", " \n "])),
         8 | 9 => {
             let d = rng.range(1, 4);
             const_expr(rng, d, 2)
